@@ -233,6 +233,8 @@ def prune(max_bytes=int(os.environ.get("VERIF_CACHE_BYTES", str(6 * 1024 ** 3)))
     """LRU prune of the cache (objects and binaries) down to max_bytes."""
     files = []
     for root, _, names in os.walk(BUILD):
+        if os.path.basename(root) == "soak":
+            continue  # logs of scripts/soak.sh
         for n in names:
             if n == ".lock" or ".tmp" in n:
                 continue
